@@ -263,4 +263,13 @@ def run(tier, seed):
     SG = gen.scale_groups()
     uni = [s for s in gen.scale_scenarios() if s["steps"][-1][0].get("goal", {}).get("n") in ("=", "\\=")]
     chk.machine_family("scale-unify", SG["arity"] + uni, {"budget_extra": 20000000, "must_complete": True}, max_steps=30000)
+    # compounds that share the list constructor's NAME but not its arity, and atoms that share a functor's name
+    from ..terms import A, I, V, C, NIL, lst
+    a, b, c, d = A("a"), A("b"), A("c"), A("d")
+    odd = [(C("=", C(".", a, b, c), C(".", a, b, d)), 0), (C("=", C(".", a, b, c), C(".", a, b)), 0), (C("=", C(".", a, b), C(".", a, b, c)), 0),
+           (C("=", C(".", a, b, V(0)), C(".", a, b, c)), 1), (C("=", C(".", V(0)), C(".", a)), 1), (C("=", C(".", a, lst([b]), c), C(".", a, lst([b]), V(0))), 1),
+           (C("=", lst([a, b]), C(".", a, lst([b]), NIL)), 0), (C("\\=", C(".", a, b, c), C(".", a, b, d)), 0), (C("=", C(".", a, b, c, d), C(".", V(0), V(1), V(2), V(3))), 4),
+           (C("=", A("."), C(".", a, b)), 0), (C("=", C("f"), A("f")), 0), (C("=", C("[]", a), NIL), 0), (C("=", C(".", V(0), V(1), V(0)), C(".", a, V(0), V(1))), 2)]
+    chk.machine_family("list-constructor-name-other-arity", [{"scripts": {}, "keys": [], "steps": [[{"op": "solve", "e": 1, "r": 1, "goal": g, "qnv": q, "k": 0}]]} for g, q in odd],
+                       {"must_complete": True})
     return chk.finish(rule="one evaluation per (ordered term pair, stack of earlier unifications); each is run three ways (exhaust, close, drop); non-trivial = unifiable")
